@@ -272,7 +272,7 @@ handler.  Then `runTask`, within `|rd| + |wr| + 1` polls, ends `RET` / `STALL` a
 having written exactly: the replies owed for the preamble, `O₁`, the Stdout records of `data`, `O₂`,
 `[Stdout∅][Stderr∅][EndRequest(id, st)]`, where `O₁ ++ O₂` are the replies owed for the stream's noise.
 
-`hsize` / `hhf` are side conditions on the *model's* fuel (`pollConn 100000`,
+`hsize` / `hhf` are side conditions on the *model's* fuel (`pollConn (connFuel c)` with `connFuel c ≥ 100000`,
 `handlerPoll (≥ 1000 + 4·|input|)`), not properties of the code. -/
 theorem single_request_e2e {p : Preamble} {recs : List Rec} {content : Bytes} {srecs : List Rec}
     {b mc : Nat} {data : Bytes} {st : ExitStatus} {t : Transport} {fuel : Nat}
